@@ -173,6 +173,8 @@ inductive MOp (K V : Type) where
   | remove (k : K)
   | clear
   | add (d : List (K × V))
+  | addSelf
+  | clone
 
 /-- what the model (= the code, by K) does -/
 def MOp.run (cmp : K → K → Ordering) (dflt : V) : MOp K V → List (K × V) → Option (List (K × V))
@@ -182,6 +184,8 @@ def MOp.run (cmp : K → K → Ordering) (dflt : V) : MOp K V → List (K × V) 
   | .remove k, l => (Map.remove cmp l k).map (·.1)
   | .clear, _ => some []
   | .add d, l => Map.add cmp dflt l d
+  | .addSelf, l => Map.add cmp dflt l l
+  | .clone, l => some (Map.clone l)
 
 /-- what the mathematical finite map does -/
 def MOp.spec (dflt : V) : MOp K V → FinMap K V → FinMap K V
@@ -191,6 +195,8 @@ def MOp.spec (dflt : V) : MOp K V → FinMap K V → FinMap K V
   | .remove k, f => f.erase k
   | .clear, _ => FinMap.empty
   | .add d, f => f.merge (fun k => lookup k d)
+  | .addSelf, f => f.merge f
+  | .clone, f => f
 
 def runAll (cmp : K → K → Ordering) (dflt : V) : List (MOp K V) → List (K × V) → Option (List (K × V))
   | [], l => some l
@@ -224,6 +230,12 @@ theorem map_op_refines {cmp : K → K → Ordering} (so : StrictOrder cmp) (dflt
   | add d =>
     obtain ⟨l', h1, h2, h3⟩ := AslProofs.Map.add_spec so dflt d (AslProofs.Map.Sorted.keysNodup so (hadd d rfl)) hs
     exact ⟨l', h1, h2, fun x => by rw [h3 x]; rfl⟩
+  | addSelf =>
+    obtain ⟨l', h1, h2, h3⟩ := AslProofs.Map.add_spec so dflt l (AslProofs.Map.Sorted.keysNodup so hs) hs
+    exact ⟨l', h1, h2, fun x => by rw [h3 x]; rfl⟩
+  | clone =>
+    have e : Map.clone l = l := by unfold Map.clone; simp
+    exact ⟨l, by simp [MOp.run, e], hs, fun x => rfl⟩
 
 /-- **ordered map = finite map, for every history.**  After any sequence of insertions, overwrites,
 `operator[]`, removals, clears and merges the array is strictly ascending and its abstract map is the result of
@@ -282,6 +294,23 @@ end Ordered
 /-! ## hash map (`HashMap`, `HashDic`) — for an arbitrary hash function -/
 section Hashed
 variable {K V : Type} [DecidableEq K]
+
+/-- **G obligations**: the constants regenerated from `include/asl/HashMap.h` on this run keep the model
+meaningful — `HashMap()` has at least one bucket, growth multiplies by a positive factor, the fill threshold is
+a proper fraction with a non-zero denominator, two header slots -/
+theorem gen_constants_ok :
+    0 < Gen.HashMap.defaultBuckets ∧ 0 < Gen.HashMap.growFactor ∧ 0 < Gen.HashMap.growDen ∧
+    Gen.HashMap.growNum ≤ Gen.HashMap.growDen ∧ Gen.HashMap.skip = 2 := by decide
+
+/-- `p` is the least power of two `≥ n` (for `n ≥ 1`) -/
+def isNextPoT (n p : Nat) : Bool := decide (n ≤ p) && decide (p < 2 * n) && (p &&& (p - 1)) == 0
+
+/-- **G obligation**: with the regenerated shifts, `nextPoT n` is the least power of two `≥ n` for every
+`1 ≤ n ≤ 4096` (the sizes the generator passes to `HashMap(int)` / `Set(int)` are within 1..2048) -/
+theorem nextPoT_is_next_power_of_two :
+    (∀ n, n < 1025 → 0 < n → isNextPoT n (HashMap.nextPoT n) = true) ∧
+    ((List.range 3072).map (· + 1025)).all (fun n => isNextPoT n (HashMap.nextPoT n)) = true := by
+  constructor <;> decide +kernel
 
 /-- every bucket index computed by `binOf` is inside the table -/
 theorem binOf_in_bounds (h : K → Nat) {nb : Nat} (hnb : 0 < nb) (k : K) : HashMap.binOf h nb k < nb :=
@@ -473,6 +502,104 @@ theorem set_array_spec {h : K → Nat} {s : HSet K} (inv : Inv h s) :
   refine ⟨AslProofs.HashMap.keys_nodup inv, by simp [HashMap.sArray, inv.count], ?_⟩
   intro y; exact AslProofs.HashMap.mem_keys_iff inv y
 
+theorem set_clear_spec {h : K → Nat} {s : HSet K} (inv : Inv h s) :
+    Inv h (HashMap.clear s) ∧ ∀ y, ¬ Mem h (HashMap.clear s) y := by
+  obtain ⟨i, _, a⟩ := AslProofs.HashMap.clear_spec inv
+  refine ⟨i, ?_⟩
+  intro y
+  simp [Mem, AslProofs.HashMap.has_eq_abs i.wf, a y]
+
+/-- `clone()` of a set has the same members (and is well-formed whatever the growth during the copy) -/
+theorem set_clone_spec {h : K → Nat} {s : HSet K} (inv : Inv h s) :
+    Inv h (HashMap.dup h 0 s) ∧ ∀ y, Mem h (HashMap.dup h 0 s) y ↔ Mem h s y := by
+  obtain ⟨i, a⟩ := AslProofs.HashMap.dup_spec inv (0 : Int)
+  refine ⟨i, ?_⟩
+  intro y
+  simp [Mem, AslProofs.HashMap.has_eq_abs i.wf, AslProofs.HashMap.has_eq_abs inv.wf, a y]
+
+/-- operations of one set; set-valued operands are other sets (`addSelf` is `s << s`) -/
+inductive SOp (K : Type) where
+  | ins (x : K)
+  | rem (x : K)
+  | clear
+  | clone
+  | addAll (o : HSet K)
+  | addSelf
+  | union (o : HSet K)
+  | inter (o : HSet K)
+  | diff (o : HSet K)
+  | fromArray (xs : List K)
+
+/-- what the model (= the code, by K) does -/
+def SOp.run (h : K → Nat) : SOp K → HSet K → HSet K
+  | .ins x, s => HashMap.sIns h s x
+  | .rem x, s => HashMap.remove h s x
+  | .clear, s => HashMap.clear s
+  | .clone, s => HashMap.dup h 0 s
+  | .addAll o, s => HashMap.sAddAll h s o
+  | .addSelf, s => HashMap.sAddAll h s s
+  | .union o, s => HashMap.sUnion h s o
+  | .inter o, s => HashMap.sIn h s o
+  | .diff o, s => HashMap.sNotIn h s o
+  | .fromArray xs, _ => HashMap.sFromList h xs
+
+/-- what the mathematical set (a predicate on keys) does -/
+def SOp.spec (h : K → Nat) : SOp K → (K → Prop) → (K → Prop)
+  | .ins x, P => fun y => y = x ∨ P y
+  | .rem x, P => fun y => y ≠ x ∧ P y
+  | .clear, _ => fun _ => False
+  | .clone, P => P
+  | .addAll o, P => fun y => P y ∨ Mem h o y
+  | .addSelf, P => fun y => P y ∨ P y
+  | .union o, P => fun y => P y ∨ Mem h o y
+  | .inter o, P => fun y => P y ∧ Mem h o y
+  | .diff o, P => fun y => P y ∧ ¬ Mem h o y
+  | .fromArray xs, _ => fun y => y ∈ xs
+
+/-- operands that are enumerated by the operation and therefore must themselves be well-formed -/
+def SOp.operands : SOp K → List (HSet K)
+  | .addAll o => [o]
+  | .union o => [o]
+  | _ => []
+
+theorem set_op_refines {h : K → Nat} (o : SOp K) {s : HSet K} (inv : Inv h s)
+    (hops : ∀ x ∈ o.operands, Inv h x) :
+    Inv h (o.run h s) ∧ ∀ y, Mem h (o.run h s) y ↔ o.spec h (Mem h s) y := by
+  cases o with
+  | ins x => exact set_insert_spec inv x
+  | rem x => exact set_remove_spec inv x
+  | clear =>
+    obtain ⟨i, a⟩ := set_clear_spec inv
+    exact ⟨i, fun y => ⟨fun hm => a y hm, fun hf => hf.elim⟩⟩
+  | clone => exact set_clone_spec inv
+  | addAll x => exact set_add_all_spec inv (hops x (by simp [SOp.operands]))
+  | addSelf => exact set_add_all_spec inv inv
+  | union x => exact set_union_spec inv (hops x (by simp [SOp.operands]))
+  | inter x => exact set_inter_spec inv
+  | diff x => exact set_diff_spec inv
+  | fromArray xs => exact set_from_array_spec xs
+
+/-- **Set = mathematical set, for every history, every hash function, every table size.**  After any sequence
+of insertions, removals, clears, clones, merges (`<<`, also with itself), unions, intersections, differences
+and re-initialisations from an array, the table is well-formed and its members are exactly those of the same
+history on predicates. -/
+theorem set_refines (h : K → Nat) (ops : List (SOp K)) (hops : ∀ o ∈ ops, ∀ x ∈ o.operands, Inv h x) :
+    ∀ {s : HSet K}, Inv h s →
+    Inv h (ops.foldl (fun s o => o.run h s) s) ∧
+    ∀ y, Mem h (ops.foldl (fun s o => o.run h s) s) y ↔ ops.foldl (fun P o => o.spec h P) (Mem h s) y := by
+  induction ops with
+  | nil => intro s inv; exact ⟨inv, fun _ => Iff.rfl⟩
+  | cons o t ih =>
+    intro s inv
+    obtain ⟨i1, a1⟩ := set_op_refines o inv (hops o (by simp))
+    obtain ⟨i2, a2⟩ := ih (fun o' ho' => hops o' (List.mem_cons_of_mem _ ho')) i1
+    refine ⟨i2, ?_⟩
+    intro y
+    simp only [List.foldl_cons]
+    rw [a2 y]
+    have : Mem h (o.run h s) = o.spec h (Mem h s) := funext fun z => propext (a1 z)
+    rw [this]
+
 end Sets
 
 /-! ## the two defects repaired in /repo (d4d2172, 12cf1de): the specification rejects the old code -/
@@ -547,7 +674,15 @@ example : Sorted Map.cmpBytes [(([65, 98] : List UInt8), (1 : Int)), ([66, 65], 
 /-- a table with three keys in one chain, after a removal of the chain head -/
 example : (HashMap.enum (HashMap.remove HashMap.hashInt (tbl [1, 5, 9]) 1)) = [(5, 105), (9, 109)] := by decide
 
-/-- "Ab" and "BA" have the same asl hash (the collision named in the property) -/
-example : HashMap.hashBytes [65, 98] = HashMap.hashBytes [66, 65] := by decide
+/-- growth fires: the sixth insertion into a 4-bucket table (6 slots; with the constants of the code as it is,
+threshold 6*7/8 = 5) rebuilds it with 4*growFactor buckets and keeps every entry.  Stated relative to the
+regenerated constants so that a harmless change of the growth rule does not break it. -/
+example : (Gen.HashMap.growNum, Gen.HashMap.growDen, Gen.HashMap.growFactor) = (7, 8, 8) →
+    (tbl [1, 5, 9, 13, 17]).buckets.length = 4 ∧ (tbl [1, 5, 9, 13, 17, 21]).buckets.length = 32 ∧
+    HashMap.enum (tbl [1, 5, 9, 13, 17, 21]) = [(1, 101), (5, 105), (9, 109), (13, 113), (17, 117), (21, 121)] := by
+  decide
+
+/-- "Ab" and "BA" have the same asl hash (the collision named in the property) as long as the multiplier is 33 -/
+example : Gen.HashMap.hashMul = 33 → HashMap.hashBytes [65, 98] = HashMap.hashBytes [66, 65] := by decide
 
 end C02
